@@ -190,7 +190,26 @@ Definition skip_flush (c : conn) (free used : Z) (calls : list (list reassembly)
     send_to_connection (add_contiguous w1) free calls)
   end.
 
-(* ---- insertIntoConn, assembly.go:715-730 *)
+(* ---- the limit check of insertIntoConn (assembly.go:723-724) on the current counters *)
+Definition limit_now (maxPer maxTotal pg used : Z) : bool :=
+  ((maxPer >? 0) && (pg >=? maxPer)) || ((maxTotal >? 0) && (used >=? maxTotal)).
+
+(* ---- repaired code ("fix: tcpassembly flushes until the page limits hold again ..."):
+   `for conn.first != nil && limit { addNextFromConn }`; every iteration pops one page, so
+   fuel = length of the queue suffices (proved) *)
+Fixpoint limit_loop (fuel : nat) (maxPer maxTotal : Z) (w : work) : outcome work :=
+  match c_queue (w_c w) with
+  | [] => Ok w
+  | _ :: _ =>
+    if limit_now maxPer maxTotal (c_pages (w_c w)) (w_used w) then
+      match fuel with
+      | O => Panic 99
+      | S f => obind (add_next w) (limit_loop f maxPer maxTotal)
+      end
+    else Ok w
+  end.
+
+(* ---- insertIntoConn, assembly.go:715-735 *)
 Definition insert_into_conn (maxPer maxTotal : Z) (seq : Z) (bytes : list Z) (e : bool) (ts : Z)
     (goff : Z) (w : work) : outcome work :=
   let c := w_c w in
@@ -202,8 +221,7 @@ Definition insert_into_conn (maxPer maxTotal : Z) (seq : Z) (bytes : list Z) (e 
   let '(a, b) := traverse (c_queue c) seq in
   let c1 := mkC (c_pages c + n) (a ++ ps ++ b) (c_nextSeq c) (c_lastSeen c) (c_pos c) in
   let w1 := mkW c1 used1 (w_ret w) in
-  if ((maxPer >? 0) && (c_pages c1 >=? maxPer)) || ((maxTotal >? 0) && (used1 >=? maxTotal))
-  then add_next w1 else Ok w1.
+  limit_loop (length (c_queue c1)) maxPer maxTotal w1.
 
 (* ---- operations of the public API *)
 Inductive op :=
